@@ -218,8 +218,10 @@ ChooseBareHttp ==
           /\ scn.hd.end.msg \in {"ascii", "nonascii"}
           /\ scn' = [scn EXCEPT !.hd.comp = "gzip", !.cl.accept = <<"gzip">>]
        \/ /\ scn.hd.end.code = 1 /\ scn.hd.end.msg = "ascii" /\ scn.hd.end.details = 0 /\ scn.hd.end.how = "normal"
-          /\ \E st \in HttpStatuses :
-               scn' = [scn EXCEPT !.hd.end = [DefaultEnd EXCEPT !.how = "barehttp", !.code = 0], !.hd.status = st,
+          \* (style "jsoncode": the bare failure carries a JSON body of the backend's own making that begins with a
+          \*  numeric "code" but is not the protocol's error object)
+          /\ \E st \in HttpStatuses, sty \in (IF Enveloped(Srv.form) THEN {"declared"} ELSE {"declared", "jsoncode"}) :
+               scn' = [scn EXCEPT !.hd.end = [DefaultEnd EXCEPT !.how = "barehttp", !.code = 0, !.style = sty], !.hd.status = st,
                                   !.hd.frames = <<>>, !.hd.errat = 0]
     /\ ph' = "run"
     /\ UNCHANGED m
